@@ -449,7 +449,7 @@ func mutate(r *mrand.Rand, der []byte) []byte {
 }
 
 func main() {
-	ev.Main("C16", "exploration", func(r *ev.Run) {
+	ev.MainIsolated("C16", "exploration", 40*time.Minute, func(r *ev.Run) {
 		r.Rule("certificates from crypto/x509.CreateCertificate over subject keys {RSA-1024, RSA-2048, P-256, P-384, P-521} x issuer keys {RSA, P-256/384/521} x signature algorithms {SHA256/384/512 with RSA PKCS#1 and PSS, ECDSA with SHA256/384/512} x random subsets of extension kinds {basic constraints, key usage, SKI/AKI, SAN dns/email/ip, EKU incl. unknown, policies, AIA/CRL, Yubico vendor OIDs 3.3/3.7/3.8/3.9} plus the repository's testdata certificates; each: lenient parser vs crypto/x509 field by field, 3 trailing-data variants, NULL-stripped re-encoding (RSA), byte mutations (exhaustive single-byte-flip/delete/truncate at every offset for the first certificates, sampled for the rest), PEM bundles of 0..5, serial-extension values of every length 0..8 (exhaustive first two bytes over a tag/length grid) and sampled 3/4-byte serials. distinct_nontrivial = distinct certificates accepted-and-equal + distinct NULL-stripped encodings accepted + distinct serial values whose ModHex equalled the reference + distinct PEM bundles")
 		r.Assume("crypto/x509.ParseCertificate is the reference for well-formed certificates", "ModHex reference: 16-symbol table cbdefghijklnrtuv over %08x of the unsigned serial")
 		initKeys()
